@@ -247,18 +247,41 @@ func renderLine(rs []Range) string {
 	return b.String()
 }
 
-func renderHeader(lines [][]Range) []string {
+// renderHeader renders one header line per element of lines; a line without ranges is written as OWS only
+// (lsp[i] selects it: "", " ", "\t", ...), it contributes no range.
+func renderHeader(lines [][]Range, lsp []int) []string {
 	out := make([]string, 0, len(lines))
-	for _, l := range lines {
+	for i, l := range lines {
+		if len(l) == 0 {
+			v := 0
+			if i < len(lsp) {
+				v = lsp[i]
+			}
+			out = append(out, owsTable[((v%len(owsTable))+len(owsTable))%len(owsTable)])
+			continue
+		}
 		out = append(out, renderLine(l))
+	}
+	return out
+}
+
+func lspFrom(v any) []int {
+	var out []int
+	if v == nil {
+		return out
+	}
+	for _, x := range drv.List(v) {
+		out = append(out, drv.Int(x))
 	}
 	return out
 }
 
 // ---- execution ---------------------------------------------------------------
 
-func request(key string, lines []string) *http.Request {
-	r := httptest.NewRequest(http.MethodGet, "/t", nil)
+func request(key string, lines []string) *http.Request { return requestM(http.MethodGet, key, lines) }
+
+func requestM(method, key string, lines []string) *http.Request {
+	r := httptest.NewRequest(method, "/t", nil)
 	if len(lines) > 0 {
 		r.Header[key] = lines
 	}
@@ -333,6 +356,7 @@ func negotiateEnc(lines []string, offers []string) (res string, panicked bool) {
 // ---- the API under test -------------------------------------------------------
 
 type apiInst struct {
+	method   string
 	handler  http.Handler
 	produces []string // route.Produces as built
 	ran      *bool
@@ -340,14 +364,26 @@ type apiInst struct {
 
 var apiCache = map[string]*apiInst{}
 
-func buildAPI(declared []string, adef string) (*apiInst, error) {
-	key := strings.Join(declared, "\x00") + "\x01" + adef
+// buildAPI serves one operation `method /t` that produces `declared` and whose only declared response is `success`
+// ("200", "201", "204" or "default").
+func buildAPI(declared []string, adef, method, success string) (*apiInst, error) {
+	if method == "" {
+		method = http.MethodGet
+	}
+	if success == "" {
+		success = "200"
+	}
+	key := strings.Join(declared, "\x00") + "\x01" + adef + "\x01" + method + "\x01" + success
 	if a, ok := apiCache[key]; ok {
 		return a, nil
 	}
+	resp := map[string]any{"description": "ok"}
+	if success != "204" {
+		resp["schema"] = map[string]any{"type": "string"}
+	}
 	op := map[string]any{
 		"operationId": "t",
-		"responses":   map[string]any{"200": map[string]any{"description": "ok", "schema": map[string]any{"type": "string"}}},
+		"responses":   map[string]any{success: resp},
 	}
 	if len(declared) > 0 {
 		op["produces"] = declared
@@ -355,7 +391,7 @@ func buildAPI(declared []string, adef string) (*apiInst, error) {
 	doc := map[string]any{
 		"swagger": "2.0",
 		"info":    map[string]any{"title": "c07", "version": "1"},
-		"paths":   map[string]any{"/t": map[string]any{"get": op}},
+		"paths":   map[string]any{"/t": map[string]any{strings.ToLower(method): op}},
 	}
 	raw, err := json.Marshal(doc)
 	if err != nil {
@@ -375,17 +411,17 @@ func buildAPI(declared []string, adef string) (*apiInst, error) {
 		api.RegisterProducer(strings.SplitN(t, ";", 2)[0], prod)
 	}
 	ran := new(bool)
-	api.RegisterOperation("get", "/t", runtime.OperationHandlerFunc(func(interface{}) (interface{}, error) {
+	api.RegisterOperation(method, "/t", runtime.OperationHandlerFunc(func(interface{}) (interface{}, error) {
 		*ran = true
 		return "ok", nil
 	}))
 	ctx := middleware.NewContext(d, api, nil)
 	h := ctx.APIHandler(nil)
-	mr, ok := ctx.LookupRoute(request("Accept", nil))
+	mr, ok := ctx.LookupRoute(requestM(method, "Accept", nil))
 	if !ok {
 		return nil, fmt.Errorf("route /t not found")
 	}
-	a := &apiInst{handler: h, produces: append([]string{}, mr.Produces...), ran: ran}
+	a := &apiInst{method: method, handler: h, produces: append([]string{}, mr.Produces...), ran: ran}
 	if len(apiCache) > 4096 {
 		apiCache = map[string]*apiInst{}
 	}
@@ -402,7 +438,7 @@ func serveAPI(a *apiInst, lines []string) (status int, ran bool, ctype string, p
 			ran = *a.ran
 		}
 	}()
-	a.handler.ServeHTTP(rec, request("Accept", lines))
+	a.handler.ServeHTTP(rec, requestM(a.method, "Accept", lines))
 	return rec.Code, *a.ran, rec.Header().Get("Content-Type"), false
 }
 
@@ -417,7 +453,7 @@ func rawOffers(os []Offer) []string {
 func execute(c *drv.Ctx, d M) bool {
 	switch drv.Str(d["kind"]) {
 	case "ct":
-		lines := renderHeader(linesFrom(d["lines"]))
+		lines := renderHeader(linesFrom(d["lines"]), lspFrom(d["lsp"]))
 		olists := olistsFrom(d["olists"])
 		var defaults []string
 		for _, x := range drv.List(d["defaults"]) {
@@ -438,7 +474,7 @@ func execute(c *drv.Ctx, d M) bool {
 		if drv.Bool(d["api"]) {
 			adef := offerFrom(d["adef"]).Raw()
 			for k, ol := range olists {
-				a, err := buildAPI(rawOffers(ol), adef)
+				a, err := buildAPI(rawOffers(ol), adef, drv.Str(d["method"]), drv.Str(d["success"]))
 				if err != nil {
 					panic(fmt.Sprintf("c07: cannot build the API for %v: %v", rawOffers(ol), err))
 				}
@@ -453,7 +489,7 @@ func execute(c *drv.Ctx, d M) bool {
 		}
 		return n >= 2 && selected
 	case "enc":
-		lines := renderHeader(linesFrom(d["lines"]))
+		lines := renderHeader(linesFrom(d["lines"]), lspFrom(d["lsp"]))
 		parseEvent(c, "parse", "Accept-Encoding", lines)
 		selected := false
 		for k, ol := range drv.List(d["olists"]) {
@@ -482,7 +518,7 @@ func execute(c *drv.Ctx, d M) bool {
 		c.W.Event("oct", M{"result": trace.B(res), "panic": p})
 		res, p = negotiateEnc(lines, offers)
 		c.W.Event("oenc", M{"result": trace.B(res), "panic": p})
-		a, err := buildAPI([]string{"a/x", "text/plain"}, "application/json")
+		a, err := buildAPI([]string{"a/x", "text/plain"}, "application/json", http.MethodGet, "200")
 		if err != nil {
 			panic(err)
 		}
